@@ -101,6 +101,19 @@ def run(prop, tier, seed):
         reals = list(ex.map(run_cfg, bins))
     diffs = []          # (config, case, op index, real, model)
     total_ops = 0
+    # full execution order of every run (deferred calls and timer callbacks with the Core::now they observed):
+    # the model has no such line, so configurations are compared with the pinned default configuration
+    ref_real = [r for r in reals if r[0] == "default"][0][2]
+    for name, rc2, real, rerr in reals:
+        if rc2 != 0 or name == "default":
+            continue
+        for cname, ops in cases:
+            xa = layer_t.XLINES.get(id(real.get(cname)), {})
+            xb = layer_t.XLINES.get(id(ref_real.get(cname)), {})
+            for j in sorted(set(xa) | set(xb)):
+                if xa.get(j) != xb.get(j):
+                    diffs.append((name, cname, j, "execution order " + str(xa.get(j)), "default configuration: " + str(xb.get(j))))
+                    break
     for name, rc2, real, rerr in reals:
         if rc2 != 0:
             diffs.append((name, "<driver>", 0, "exit %d: %s" % (rc2, rerr[-300:]), ""))
